@@ -1,18 +1,28 @@
 (** C11 — Arithmetic evaluation follows C expression semantics on 64-bit signed integers. *)
-From GoSh Require Import Base.Bytes Base.Outcome Store.Env Store.EnvSpec Arith.ASyntax Arith.AEval Arith.AProofs Arith.ARefine.
+From GoSh Require Import Base.Bytes Base.Outcome Store.Env Store.EnvSpec Arith.ASyntax Arith.AEval Arith.AProofs Arith.ARefine Arith.ARoundTrip Arith.ARefineFull.
 
-(** Full statement of the property on the model: on every C-defined expression on which eager
-    evaluation of the operands of && || ?: is unobservable ([eager_safe], the complement of known
-    finding F11) and whose variables hold numbers, the rule-action evaluator computes C's value and
-    C's store; it fails exactly when C's evaluation fails.  (Statement kept in full; see the
-    theorems below for what is proved so far.) *)
-Definition C11_refines_C_statement : Prop :=
+(** Full statement of the property on the model: on every C-defined expression (no variable both
+    modified and otherwise accessed between sequence points) on which eager evaluation of the
+    operands of && || ?: is unobservable ([eager_safe], the complement of known finding F11) and
+    whose variables hold numbers, the rule-action evaluator computes C's value and C's store --
+    assignments, compound assignments, increments and decrements included -- and it fails exactly
+    when C's evaluation fails.  (The evaluator delays the reading of variables and evaluates the
+    operands that C skips; what it writes it reads back: strconv.Itoa / ParseInt round trip.) *)
+Theorem C11_refines_C :
   forall a e, c_defined a = true -> eager_safe a = true -> numeric_store e a = true ->
     match eval_top_i e a, eval_c e a with
     | (e1, Ok n1), (e2, Ok n2) => n1 = n2 /\ forall k, abs e1 k = abs e2 k
     | (_, Err _), (_, Err _) => True
     | _, _ => False
     end.
+Proof. exact refines_C. Qed.
+Print Assumptions C11_refines_C.
+
+(** What is written is read back (strconv.Itoa then strconv.ParseInt(s, 0, 0)) on the whole int64 range. *)
+Theorem C11_written_values_are_read_back :
+  forall n, (- 9223372036854775808 <= n < 9223372036854775808)%Z -> parse_int0 (itoa n) = Some n.
+Proof. exact parse_itoa. Qed.
+Print Assumptions C11_written_values_are_read_back.
 
 (** Proved (every expression, every store): assignments and increments update exactly the named
     variables -- evaluation changes the store at most at the names under =, op=, ++, -- and never
@@ -22,7 +32,7 @@ Theorem C11_partial_only_named_variables_change :
 Proof. exact eval_i_frame. Qed.
 Print Assumptions C11_partial_only_named_variables_change.
 
-(** Proved: on expressions without assignment, increment or decrement the refinement statement holds
+(** Kept from an earlier round: on expressions without assignment, increment or decrement the refinement statement holds
     in full -- the evaluator leaves the store alone and gives C's value (or both fail), although it
     delays the reading of variables and evaluates the operands that C skips. *)
 Theorem C11_partial_refines_C_without_assignments :
@@ -38,4 +48,14 @@ Example C11_witness :
   snd (eval_model e0 [55; 45; 50; 42; 51]) = Ok 1%Z /\
   snd (eval_model e0 [120; 61; 121; 61; 52]) = Ok 4%Z /\
   snd (eval_model e0 [57;50;50;51;51;55;50;48;51;54;56;53;52;55;55;53;56;48;55;43;49]) = Ok (-9223372036854775808)%Z.
+Proof. vm_compute. repeat split. Qed.
+
+(** Non-vacuity of C11_refines_C: x = y++ + 2, (x += 3) * (y = x0 ? 1 : 2) meet the three hypotheses. *)
+Example C11_refines_C_witness :
+  let e0 := mkEnv [[115; 104]] 0 0%Z [([121], [53])] in
+  let x := EVar [120] in let y := EVar [121] in let z := EVar [122] in
+  let a1 := EAssign None x (EBin Add (EPostInc y) (ENum [50])) in
+  let a2 := EBin Mul (EParen (EAssign (Some Add) x (ENum [51]))) (EParen (EAssign None y (ECond z (ENum [49]) (ENum [50])))) in
+  c_defined a1 = true /\ eager_safe a1 = true /\ numeric_store e0 a1 = true /\ snd (eval_top_i e0 a1) = Ok 7%Z /\
+  c_defined a2 = true /\ eager_safe a2 = true /\ numeric_store e0 a2 = true /\ snd (eval_top_i e0 a2) = Ok 6%Z.
 Proof. vm_compute. repeat split. Qed.
